@@ -107,6 +107,18 @@ def c16_b(ctx):
                       '`{}` is not computed from self.samples'.format(src(c)[:70]), fn=m, node=c)
     if n < 4:
         ctx.undecided('expected >= 4 weighted statistics, found {}'.format(n))
+    # a method that takes the level alpha hands it on
+    for m in s.methods.values():
+        if 'alpha' not in m.all_params:
+            continue
+        ex = ctx.ex(m)
+        for c in ctx.calls(m, 'weighted_sample_quantile(*_)'):
+            kws = dict((k.arg, ex.term(k.value)) for k in c.keywords)
+            a = kws.get('alpha') if 'alpha' in kws else (
+                ex.term(c.args[1]) if len(c.args) > 1 else None)
+            ctx.check(a == ('param', 'alpha'), m, 'requested level passed on', 'alpha=alpha',
+                      '{} does not pass its alpha to the quantile (the default 0.5 is used)'
+                      .format(m.name), fn=m, node=c)
     ci = s.methods.get('sample_means_and_95CIs')
     if ci is not None:
         ex = ctx.ex(ci)
@@ -421,6 +433,12 @@ def c16_g(ctx):
         g_ok = bool(adds) and any(pol and t == ('cmp', '<=', ('const', 0), tt)
                                   for (t, pol, _) in ctx.guards(es, adds[0]))
         brk = any(isinstance(s_, ast.Break) for s_ in ast.walk(lp))
+        lt = ex.raw(lp.test)
+        lag_name = [x.id for x in ast.walk(lp.test) if isinstance(x, ast.Name)]
+        run_ok = lt[0] == 'cmp' and lt[1] == '<' and ex.term(lp.test)[3] == n_t and \
+            lt[2][0] == 'name'
+        ctx.check(run_ok, es, 'lags run up to the chain length', 'while lag < n_samples',
+                  'the lag loop does not run while lag < n_samples', fn=es, node=lp)
         lag0 = [s_ for s_ in own_nodes(es.node) if isinstance(s_, ast.Assign) and
                 isinstance(s_.targets[0], ast.Name) and enclosing_loop(s_) is None and
                 ex.raw(s_.value) == ('const', 1) and
